@@ -10,7 +10,7 @@ from common import ModelError, R, Rmat, flmat, max_rel_err
 
 from common import wiring_pre_build as pre_build  # noqa: E402,F401
 
-LEAN_MODULES = ["PyomaVerif.Props.C03", "PyomaVerif.Props.C01", "PyomaVerif.Props.WiringRun", "PyomaVerif.Props.C03C11", "PyomaVerif.Props.C03E2E", "PyomaVerif.Props.C03Stored"]
+LEAN_MODULES = ["PyomaVerif.Props.C03", "PyomaVerif.Props.C01", "PyomaVerif.Props.WiringRun", "PyomaVerif.Props.C03C11", "PyomaVerif.Props.C03E2E", "PyomaVerif.Props.C03Stored", "PyomaVerif.Props.WiringClass", "PyomaVerif.Props.WiringCalls"]
 THEOREMS = [
     # end to end: per-setup records -> Hankel -> per-setup factor -> re-basing -> Obs_all -> realisation -> extraction
     # (Props/C03E2E.lean, Lemmas/MsFreeVib.lean)
@@ -43,6 +43,8 @@ THEOREMS = [
     "PV.C03C11.ex_near",
     # call-site wiring of the class layer, regenerated from /repo on every run (translate_wiring.py)
     "PV.WiringRun.C03_run_multi",
+    "PV.WiringClass.C03_ms_inherited",
+    "PV.WiringCalls.C03_ssidat_ms_run_calls",
     "PV.C03.C03_split",
     "PV.C03.C03_split_reject",
     "PV.C03.removeAll_spec",
